@@ -84,9 +84,36 @@ Involved(e)  == DOMAIN e.pre
 \* value conjunct for property prop; a failure under aliasing is also a C11 failure
 V(e, prop, tag, ok) == C(prop, tag, ok) \cup (IF Aliased(e) THEN C("C11", "alias.value", ok) ELSE {})
 
+\* the property an operation primarily belongs to (an unexpected panic is a failure of that property, too)
+MainProp(op) ==
+    CASE op \in {"Point.ScalarMult", "Point.ScalarBaseMult", "Point.VarTimeDoubleScalarBaseMult", "Point.MultiScalarMult",
+                 "Point.VarTimeMultiScalarMult"} -> "C01"
+      [] op \in {"Point.Add", "Point.Subtract", "Point.Negate", "Point.MultByCofactor"} -> "C02"
+      [] op = "Point.SetBytes" -> "C04"
+      [] op = "Point.Bytes" -> "C05"
+      [] op = "Point.Equal" -> "C06"
+      [] op \in {"Scalar.Add", "Scalar.Subtract", "Scalar.Negate", "Scalar.Multiply", "Scalar.MultiplyAdd", "Scalar.Invert", "Scalar.Equal"} -> "C07"
+      [] op \in {"Scalar.Bytes", "Scalar.SetCanonicalBytes", "Scalar.SetUniformBytes", "Scalar.SetBytesWithClamping"} -> "C08"
+      [] op \in {"Elem.Add", "Elem.Subtract", "Elem.Negate", "Elem.Multiply", "Elem.Square", "Elem.Mult32", "Elem.Invert", "Elem.Pow22523",
+                 "Elem.Absolute", "Elem.Zero", "Elem.One"} -> "C09"
+      [] op \in {"Elem.Bytes", "Elem.SetBytes", "Elem.SetWideBytes", "Elem.Equal", "Elem.IsNegative", "Elem.Select", "Elem.Swap"} -> "C10"
+      [] op \in {"Point.ExtendedCoordinates", "Point.SetExtendedCoordinates"} -> "C13"
+      [] op = "Elem.SqrtRatio" -> "C16"
+      [] op = "Point.BytesMontgomery" -> "C17"
+      [] op \in {"NewIdentityPoint", "NewGeneratorPoint", "NewScalar"} -> "C19"
+      [] OTHER -> "C11"
+IsFallibleSetter(op) == op \in {"Point.SetBytes", "Point.SetExtendedCoordinates", "Scalar.SetCanonicalBytes", "Scalar.SetUniformBytes",
+                               "Scalar.SetBytesWithClamping", "Elem.SetBytes", "Elem.SetWideBytes"}
+
 \* objects that the call must not modify: everything involved except the receiver (when it is written) and outputs
+\* (bit for bit: C11.  A Point argument that no longer stands for the same valid point after the call is, in addition, a
+\*  failure of the operation's own property: P.Bytes(), P.BytesMontgomery(), P.Equal(Q), Add(P, Q) ... must leave P the point it was)
 Frame(e, written) ==
-    UN({ C("C11", "arg.unchanged", e.post[n] = e.pre[n]) : n \in Involved(e) \ written })
+    UN({ C("C11", "arg.unchanged", e.post[n] = e.pre[n])
+         \cup (IF n \in PNames /\ PValid(e.pre[n])
+               THEN C(MainProp(e.op), "argument.point.preserved", PValid(e.post[n]) /\ SamePoint(PR(e.pre[n]), PR(e.post[n])))
+               ELSE {})
+         : n \in Involved(e) \ written })
 
 \* all point objects in the post state are uninitialised or valid (C12), scalars reduced (INFO), limbs < 2^52 (INFO)
 \* A Point written by a SUCCESSFUL operation must be a valid curve point (in particular not the all-zero quadruple, which the
@@ -341,27 +368,6 @@ OpOk(e) ==
 
 \* operations that never return an error and never panic, whatever their arguments
 NoErr(e) == C("C14", "no.err", e.err = 0)
-
-\* the property an operation primarily belongs to (an unexpected panic is a failure of that property, too)
-MainProp(op) ==
-    CASE op \in {"Point.ScalarMult", "Point.ScalarBaseMult", "Point.VarTimeDoubleScalarBaseMult", "Point.MultiScalarMult",
-                 "Point.VarTimeMultiScalarMult"} -> "C01"
-      [] op \in {"Point.Add", "Point.Subtract", "Point.Negate", "Point.MultByCofactor"} -> "C02"
-      [] op = "Point.SetBytes" -> "C04"
-      [] op = "Point.Bytes" -> "C05"
-      [] op = "Point.Equal" -> "C06"
-      [] op \in {"Scalar.Add", "Scalar.Subtract", "Scalar.Negate", "Scalar.Multiply", "Scalar.MultiplyAdd", "Scalar.Invert", "Scalar.Equal"} -> "C07"
-      [] op \in {"Scalar.Bytes", "Scalar.SetCanonicalBytes", "Scalar.SetUniformBytes", "Scalar.SetBytesWithClamping"} -> "C08"
-      [] op \in {"Elem.Add", "Elem.Subtract", "Elem.Negate", "Elem.Multiply", "Elem.Square", "Elem.Mult32", "Elem.Invert", "Elem.Pow22523",
-                 "Elem.Absolute", "Elem.Zero", "Elem.One"} -> "C09"
-      [] op \in {"Elem.Bytes", "Elem.SetBytes", "Elem.SetWideBytes", "Elem.Equal", "Elem.IsNegative", "Elem.Select", "Elem.Swap"} -> "C10"
-      [] op \in {"Point.ExtendedCoordinates", "Point.SetExtendedCoordinates"} -> "C13"
-      [] op = "Elem.SqrtRatio" -> "C16"
-      [] op = "Point.BytesMontgomery" -> "C17"
-      [] op \in {"NewIdentityPoint", "NewGeneratorPoint", "NewScalar"} -> "C19"
-      [] OTHER -> "C11"
-IsFallibleSetter(op) == op \in {"Point.SetBytes", "Point.SetExtendedCoordinates", "Scalar.SetCanonicalBytes", "Scalar.SetUniformBytes",
-                               "Scalar.SetBytesWithClamping", "Elem.SetBytes", "Elem.SetWideBytes"}
 
 Conjuncts(e) ==
     LET cont == UN({ C("INFRA", "continuity", n \in dirty \/ regs[n] = e.pre[n]) : n \in Involved(e) })
